@@ -9,6 +9,8 @@ loops, locals, try/finally, early return, raise and yield from.
 -/
 import GPy.Common.Basic
 import GPy.C05.Spec
+import GPy.C05.Body
+import GPy.C05.Frame
 namespace GPy.C05
 
 /-! ### rendering -/
@@ -16,10 +18,11 @@ namespace GPy.C05
 def Exc.py : Exc → String
   | .value => "ValueError" | .key => "KeyError" | .type => "TypeError" | .zeroDiv => "ZeroDivisionError"
   | .index => "IndexError" | .runtime => "RuntimeError" | .attr => "AttributeError" | .lookup => "LookupError"
+  | .genExit => "GeneratorExit"
 
 def Exc.tok : Exc → String
   | .value => "value" | .key => "key" | .type => "type" | .zeroDiv => "zeroDiv"
-  | .index => "index" | .runtime => "runtime" | .attr => "attr" | .lookup => "lookup"
+  | .index => "index" | .runtime => "runtime" | .attr => "attr" | .lookup => "lookup" | .genExit => "genExit"
 
 def showVal : Val → String
   | .int i => toString i
@@ -94,6 +97,41 @@ def sortv (xs : List Val) : Except Exc (List Val) :=
 
 def pairF (v : Val) : Except NextErr Val := .ok (.pair v v)
 
+/-- `key=negkey` with `def negkey(v): return -v` (TypeError for a non-int) -/
+def negKey : Val → Except PyErr Val
+  | .int i => .ok (.int (-i))
+  | _ => .error (.exc .type)
+
+/-- `sorted(it, key=negkey)`: stable sort by descending value -/
+def insertSortedDesc (v : Int) : List Int → List Int
+  | [] => [v]
+  | x :: r => if v > x then v :: x :: r else x :: insertSortedDesc v r
+
+def sortNegv (xs : List Val) : Except Exc (List Val) :=
+  if xs.all (fun v => match v with | .int _ => true | _ => false) then
+    .ok ((xs.foldl (fun acc v => match v with | .int i => insertSortedDesc i acc | _ => acc) []).map .int)
+  else .error .type
+
+/-- `kv(v) = ('k' + str(v), v)` -/
+def kvF : Val → Except NextErr Val
+  | .int i => .ok (.pair (.str ("k" ++ toString i)) (.int i))
+  | _ => .error (.other .type)
+
+def dictInsert (k v : Val) : List (Val × Val) → List (Val × Val)
+  | [] => [(k, v)]
+  | (k', v') :: r => if k' == k then (k, v) :: r else (k', v') :: dictInsert k v r
+
+def valKeyLt : Val × Val → Val × Val → Bool
+  | (.str a, _), (.str b, _) => a < b
+  | _, _ => false
+
+/-- `d = {'a': 0}; d.update(pairs); [(k, d[k]) for k in sorted(d)]` -/
+def dictFin (xs : List Val) : Out :=
+  if xs.all (fun v => match v with | .pair _ _ => true | _ => false) then
+    let d := xs.foldl (fun acc v => match v with | .pair k w => dictInsert k w acc | _ => acc) [(Val.str "a", Val.int 0)]
+    .list ((d.toArray.qsort valKeyLt).toList.map (fun kv => .pair kv.1 kv.2))
+  else .err (.exc .type)
+
 /-! ### producers -/
 
 inductive Kind | user | gen | mapped | getitem | builtin | genexp
@@ -103,7 +141,7 @@ def Kind.tok : Kind → String
   | .user => "user" | .gen => "gen" | .mapped => "mapped" | .getitem => "getitem" | .builtin => "builtin" | .genexp => "genexp"
 
 /-- frame of `(x for x in It(codes))` -/
-def genexpRun (_ : Option Val) (st : Script) : RunOut × Script :=
+def genexpRun (_ : Entry) (st : Script) : RunOut × Script :=
   match doForIter userNext st with
   | .push v s' => (.yield v, s')
   | .jump => (.ret .none, st)
@@ -171,6 +209,16 @@ def consumers : List Consumer := [
   { tok := "min", model := fun next fuel s => minMax lev next fuel s none, spec := fun sc => specMinMax lev sc none },
   { tok := "max", model := fun next fuel s => minMax gev next fuel s none, spec := fun sc => specMinMax gev sc none },
   { tok := "maxd:1", model := fun next fuel s => minMax gev next fuel s (some (.int 1)), spec := fun sc => specMinMax gev sc (some (.int 1)) },
+  { tok := "mind:1", model := fun next fuel s => minMax lev next fuel s (some (.int 1)), spec := fun sc => specMinMax lev sc (some (.int 1)) },
+  { tok := "maxkey", model := fun next fuel s => minMaxKey negKey gev next fuel s none, spec := fun sc => specMinMaxKey negKey gev sc none none },
+  { tok := "minkeyd:5", model := fun next fuel s => minMaxKey negKey lev next fuel s (some (.int 5)), spec := fun sc => specMinMaxKey negKey lev sc none (some (.int 5)) },
+  { tok := "sortedkey", model := fun next fuel s => builtinSorted sortNegv next fuel s, spec := specSorted sortNegv },
+  { tok := "extend", model := fun next fuel s => listExtend next fuel s [.int 5], spec := specExtend [.int 5] },
+  { tok := "iadd", model := fun next fuel s => listExtend next fuel s [.int 5], spec := specExtend [.int 5] },
+  { tok := "setupdate", model := fun next fuel s => setUpdate next fuel s [.int 2, .int 4], spec := specSetUpdate [.int 2, .int 4] },
+  { tok := "dictupdate", model := fun next fuel s => collectThen dictFin (mapNext kvF next) fuel s, spec := fun sc => specAll dictFin (mapScript kvF sc) },
+  { tok := "slice", model := fun next fuel s => collectThen (fun xs => .list ([.int 5] ++ xs ++ [.int 6])) next fuel s,
+    spec := specAll (fun xs => .list ([.int 5] ++ xs ++ [.int 6])) },
   { tok := "next", model := fun next _ s => builtinNext next s none, spec := specNext none },
   { tok := "nextd:9", model := fun next _ s => builtinNext next s (some (.int 9)), spec := specNext (some (.int 9)) },
   { tok := "yf", model := fun next fuel s => yieldFromCollect next fuel (newGenerator (.inl s)) [], spec := specYieldFrom }
@@ -264,17 +312,87 @@ structure AState where
 def aLoop (n i : Nat) (tot : Int) : RunOut × AState :=
   if i < n then (.yield (.int (tot * 100 + i)), ⟨n, 1, i, tot⟩) else (.ret (.int tot), ⟨n, 2, i, tot⟩)
 
-/-- body of `A(n)` as a resumable machine -/
-def runA (sent : Option Val) (st : AState) : RunOut × AState :=
+/-- body of `A(n)` as a resumable machine (no handlers: an exception thrown in at the yield ends it) -/
+def runA (ent : Entry) (st : AState) : RunOut × AState :=
   match st.pc with
   | 0 => aLoop st.n 0 0
   | 1 =>
-    match sent with
-    | some (.int 6) => (.raise (.other .key), ⟨st.n, 2, st.i, st.tot⟩)   -- `if x == 6: raise KeyError`: lets D(n) die from an exception propagated out of its sub-generator
+    match ent with
+    | .throw e => (.raise e, ⟨st.n, 2, st.i, st.tot⟩)
+    | .send (.int 6) => (.raise (.other .key), ⟨st.n, 2, st.i, st.tot⟩)   -- `if x == 6: raise KeyError`: lets D(n) die from an exception propagated out of its sub-generator
     | _ =>
-      let tot := match sent with | some (.int x) => st.tot + x | _ => st.tot
+      let tot := match ent with | .send (.int x) => st.tot + x | _ => st.tot
       aLoop st.n (st.i + 1) tot
   | _ => (.ret .none, st)
+
+structure FState where
+  n : Nat
+  pc : Nat      -- 0 start, 1 at `yield i` (inside try/finally), 2 at `yield 50+i`, 3 finished
+  i : Nat
+  log : List Int
+deriving Inhabited
+
+def fLoopS (n i : Nat) (log : List Int) : RunOut × FState :=
+  if i < n then (.yield (.int i), ⟨n, 1, i, log⟩) else (.yield (.int (50 + i)), ⟨n, 2, i, log ++ [(i : Int)]⟩)
+
+/-- body of `F(n, log)` as a resumable machine -/
+def runF (ent : Entry) (st : FState) : RunOut × FState :=
+  match st.pc with
+  | 0 => fLoopS st.n 0 st.log
+  | 1 =>
+    match ent with
+    | .throw e => (.raise e, ⟨st.n, 3, st.i, st.log ++ [(st.i : Int)]⟩)                    -- thrown at `yield i` inside try: finally runs while unwinding
+    | .send (.int 7) => (.raise (.other .key), ⟨st.n, 3, st.i, st.log ++ [(st.i : Int)]⟩)  -- finally runs while unwinding
+    | .send (.int 8) => (.ret (.int (80 + st.i)), ⟨st.n, 3, st.i, st.log ++ [(st.i : Int)]⟩)  -- return inside try: finally first
+    | _ => fLoopS st.n (st.i + 1) st.log
+  | 2 =>
+    match ent with
+    | .throw e => (.raise e, ⟨st.n, 3, st.i, st.log⟩)                                      -- thrown at `yield 50+i`, after the try statement
+    | _ => (.ret .none, ⟨st.n, 3, st.i, st.log ++ [99]⟩)
+  | _ => (.ret .none, st)
+
+/-- MODEL of a frame suspended in `yield from g` (g a generator object): `do_YIELD_FROM` on a normal entry,
+RunFrame's `throwYieldFrom` when an exception is thrown in.  `inl` = still delegating or raising, `inr v` = the
+sub-generator finished and the `yield from` expression has the value `v`. -/
+def delegModel {ι : Type} (runI : Entry → ι → RunOut × ι) (ent : Entry) (g : GenObj ι) : (RunOut × GenObj ι) ⊕ (Val × GenObj ι) :=
+  match ent with
+  | .throw e =>
+    if e.isGenExit then
+      match (g.close runI).1, (g.close runI).2.1 with
+      | some err, g' => .inl (.raise err, g')
+      | none, g' => .inl (.raise e, g')
+    else
+      match g.throw runI e with
+      | (.item v, g', _) => .inl (.yield v, g')
+      | (.err x, g', _) =>
+        if x.isStop then .inr (x.stopValue, g')          -- Lasti++ ; SET_TOP(stopIterationValue(err)); go on
+        else .inl (.raise x, g')
+  | _ =>
+    match yieldFromStep Generated.k_vm_eval_do_YIELD_FROM_0 (genNext runI) (fun s u => let r := s.send runI u; (r.1, r.2.1)) ent.sent g with
+    | .inl (o, g') => .inl (o, g')
+    | .inr (v, g') => .inr (v, g')
+
+/-- SPEC of `yield from` (PEP 380) over the sub-coroutine: values and sent values pass through, GeneratorExit closes the
+sub-generator and is then raised in the delegating generator, any other exception is thrown into the sub-generator -/
+def delegSpec {ι : Type} (runI : Entry → ι → RunOut × ι) (ent : Entry) (started : Bool) (inner : ι) : (RunOut × ι) ⊕ (Val × ι) :=
+  match ent with
+  | .throw e =>
+    if e.isGenExit then
+      match runI (.throw e) inner with
+      | (.yield _, inner') => .inl (.raise (.other .runtime), inner')
+      | (.ret _, inner') => .inl (.raise e, inner')
+      | (.raise x, inner') => .inl (.raise (if x.isStop || x.isGenExit then e else x), inner')
+    else
+      match runI (.throw e) inner with
+      | (.yield v, inner') => .inl (.yield v, inner')
+      | (.ret v, inner') => .inr (v, inner')
+      | (.raise x, inner') => .inl (.raise x, inner')
+  | _ =>
+    -- the first entry does next(inner); afterwards a None is next(inner), anything else inner.send(x)
+    match runI (if started then ent else .first) inner with
+    | (.yield v, inner') => .inl (.yield v, inner')
+    | (.ret v, inner') => .inr (v, inner')
+    | (.raise e, inner') => .inl (.raise e, inner')
 
 inductive TState
   | a (st : AState)
@@ -282,6 +400,9 @@ inductive TState
   | h (n pc i : Nat) (log : List Int)      -- pc: 0 start, 1 at `yield i*2`, 2 at `yield x+1`, 3 finished
   | d (pc : Nat) (inner : GenObj AState)   -- model: D(n) delegating to a generator object A(n) through do_YIELD_FROM
   | ds (pc : Nat) (started : Bool) (inner : AState)   -- spec: D(n) delegating to the coroutine A(n)
+  | g (pc : Nat) (inner : GenObj FState)    -- model: G(n) = `r = yield from F(n, log); yield r`
+  | gs (pc : Nat) (started : Bool) (inner : FState)   -- spec: the same over the coroutine F
+  | e (pc : Nat) (log : List Int)           -- E: yields inside an except handler, then a bare `raise`
   | r                                       -- the re-entrant generator
 deriving Inhabited
 
@@ -297,39 +418,107 @@ def addInt (k : Int) : Val → Val
   | .int r => .int (k + r)
   | v => v
 
-def runT (sent : Option Val) : TState → RunOut × TState
-  | .a st => let r := runA sent st; (r.1, .a r.2)
+def runT (ent : Entry) : TState → RunOut × TState
+  | .a st => let r := runA ent st; (r.1, .a r.2)
   | .f n 0 _ log => fLoop n 0 log
   | .f n 1 i log =>
-    match sent with
-    | some (.int 7) => (.raise (.other .key), .f n 3 i (log ++ [(i : Int)]))       -- finally runs while unwinding
-    | some (.int 8) => (.ret (.int (80 + i)), .f n 3 i (log ++ [(i : Int)]))       -- return inside try: finally first
+    match ent with
+    | .throw e => (.raise e, .f n 3 i (log ++ [(i : Int)]))                         -- thrown at `yield i` inside try: finally runs while unwinding
+    | .send (.int 7) => (.raise (.other .key), .f n 3 i (log ++ [(i : Int)]))       -- finally runs while unwinding
+    | .send (.int 8) => (.ret (.int (80 + i)), .f n 3 i (log ++ [(i : Int)]))       -- return inside try: finally first
     | _ => fLoop n (i + 1) log
-  | .f n 2 i log => (.ret .none, .f n 3 i (log ++ [99]))
+  | .f n 2 i log =>
+    match ent with
+    | .throw e => (.raise e, .f n 3 i log)                                          -- thrown at `yield 50+i`, after the try statement
+    | _ => (.ret .none, .f n 3 i (log ++ [99]))
   | .f n pc i log => (.ret .none, .f n pc i log)
   | .h n 0 _ log => hLoop n 0 log
   | .h n 1 i log =>
     let log' := log ++ [(i : Int)]
-    match sent with
-    | some (.int x) => (.yield (.int (x + 1)), .h n 2 i log')
+    match ent with
+    | .throw e => (.raise e, .h n 3 i log')
+    | .send (.int x) => (.yield (.int (x + 1)), .h n 2 i log')
     | _ => hLoop n (i + 1) log'
-  | .h n 2 i log => hLoop n (i + 1) log
+  | .h n 2 i log =>
+    match ent with
+    | .throw e => (.raise e, .h n 3 i log)
+    | _ => hLoop n (i + 1) log
   | .h n pc i log => (.ret .none, .h n pc i log)
   | .d 0 g =>
-    match yieldFromStep Generated.k_vm_eval_do_YIELD_FROM_0 (genNext runA) (fun s u => let r := s.send runA u; (r.1, r.2.1))
-        (sent.getD .none) g with
-    | .inl (o, g') => (o, .d 0 g')
-    | .inr (v, g') => (.yield (addInt 1000 v), .d 1 g')
-  | .d 1 g => (.ret .none, .d 2 g)
+    match ent with
+    | .throw e =>
+      -- RunFrame's `throwYieldFrom`: the frame is suspended in YIELD_FROM with the generator object `g` on top
+      if e.isGenExit then
+        match (g.close runA).1, (g.close runA).2.1 with
+        | some err, g' => (.raise err, .d 2 g')
+        | none, g' => (.raise e, .d 2 g')
+      else
+        match g.throw runA e with
+        | (.item v, g', _) => (.yield v, .d 0 g')
+        | (.err x, g', _) =>
+          if x.isStop then (.yield (addInt 1000 x.stopValue), .d 1 g')   -- Lasti++ ; SET_TOP(stopIterationValue(err)); go on
+          else (.raise x, .d 2 g')
+    | _ =>
+      match yieldFromStep Generated.k_vm_eval_do_YIELD_FROM_0 (genNext runA) (fun s u => let r := s.send runA u; (r.1, r.2.1))
+          ent.sent g with
+      | .inl (o, g') => (o, .d 0 g')
+      | .inr (v, g') => (.yield (addInt 1000 v), .d 1 g')
+  | .d 1 g =>
+    match ent with
+    | .throw e => (.raise e, .d 2 g)
+    | _ => (.ret .none, .d 2 g)
   | .d pc g => (.ret .none, .d pc g)
   | .ds 0 started inner =>
-    -- Python: the first entry does next(inner); afterwards a None is next(inner), anything else inner.send(x)
-    match runA (if started then sent else none) inner with
-    | (.yield v, inner') => (.yield v, .ds 0 true inner')
-    | (.ret v, inner') => (.yield (addInt 1000 v), .ds 1 true inner')
-    | (.raise e, inner') => (.raise e, .ds 2 true inner')
-  | .ds 1 st inner => (.ret .none, .ds 2 st inner)
+    match ent with
+    | .throw e =>
+      -- PEP 380: GeneratorExit closes the sub-generator and is then raised here; any other exception is thrown into it
+      if e.isGenExit then
+        match runA (.throw e) inner with
+        | (.yield _, inner') => (.raise (.other .runtime), .ds 2 true inner')
+        | (.ret _, inner') => (.raise e, .ds 2 true inner')
+        | (.raise x, inner') => (.raise (if x.isStop || x.isGenExit then e else x), .ds 2 true inner')
+      else
+        match runA (.throw e) inner with
+        | (.yield v, inner') => (.yield v, .ds 0 true inner')
+        | (.ret v, inner') => (.yield (addInt 1000 v), .ds 1 true inner')
+        | (.raise x, inner') => (.raise x, .ds 2 true inner')
+    | _ =>
+      -- Python: the first entry does next(inner); afterwards a None is next(inner), anything else inner.send(x)
+      match runA (if started then ent else .first) inner with
+      | (.yield v, inner') => (.yield v, .ds 0 true inner')
+      | (.ret v, inner') => (.yield (addInt 1000 v), .ds 1 true inner')
+      | (.raise e, inner') => (.raise e, .ds 2 true inner')
+  | .ds 1 st inner =>
+    match ent with
+    | .throw e => (.raise e, .ds 2 st inner)
+    | _ => (.ret .none, .ds 2 st inner)
   | .ds pc st inner => (.ret .none, .ds pc st inner)
+  | .g 0 g =>
+    match delegModel runF ent g with
+    | .inl (.raise x, g') => (.raise x, .g 2 g')
+    | .inl (o, g') => (o, .g 0 g')
+    | .inr (v, g') => (.yield v, .g 1 g')
+  | .g 1 g =>
+    match ent with
+    | .throw e => (.raise e, .g 2 g)
+    | _ => (.ret .none, .g 2 g)
+  | .g pc g => (.ret .none, .g pc g)
+  | .gs 0 started inner =>
+    match delegSpec runF ent started inner with
+    | .inl (.raise x, inner') => (.raise x, .gs 2 true inner')
+    | .inl (o, inner') => (o, .gs 0 true inner')
+    | .inr (v, inner') => (.yield v, .gs 1 true inner')
+  | .gs 1 st inner =>
+    match ent with
+    | .throw e => (.raise e, .gs 2 st inner)
+    | _ => (.ret .none, .gs 2 st inner)
+  | .gs pc st inner => (.ret .none, .gs pc st inner)
+  | .e 0 log => (.yield (.int 1), .e 1 log)            -- try: raise KeyError / except KeyError: x = yield 1
+  | .e 1 log =>
+    match ent with
+    | .throw x => (.raise x, .e 2 log)                 -- thrown into the handler: it propagates
+    | _ => (.raise (.other .key), .e 2 (log ++ [1]))   -- log.append(1); raise  -> the KeyError being handled when the frame yielded
+  | .e pc log => (.ret .none, .e pc log)
   | .r =>
     -- body `yield next(h)` where h is this very generator: Send sees Running = true
     let g : GenObj Unit := { fresh := false, yielded := false, running := true, frame := () }
@@ -340,31 +529,74 @@ def runT (sent : Option Val) : TState → RunOut × TState
 def logOf : TState → List Int
   | .f _ _ _ log => log
   | .h _ _ _ log => log
+  | .e _ log => log
+  | .g _ g => g.frame.log
+  | .gs _ _ inner => inner.log
   | _ => []
 
-inductive Tmpl | A (n : Nat) | F (n : Nat) | D (n : Nat) | H (n : Nat)
+inductive Tmpl | A (n : Nat) | F (n : Nat) | D (n : Nat) | H (n : Nat) | E (n : Nat) | G (n : Nat)
 deriving Inhabited
 
 def Tmpl.tok : Tmpl → String
-  | .A n => s!"A{n}" | .F n => s!"F{n}" | .D n => s!"D{n}" | .H n => s!"H{n}"
+  | .A n => s!"A{n}" | .F n => s!"F{n}" | .D n => s!"D{n}" | .H n => s!"H{n}" | .E n => s!"E{n}" | .G n => s!"G{n}"
 
 def Tmpl.init (spec : Bool) : Tmpl → TState
   | .A n => .a ⟨n, 0, 0, 0⟩
   | .F n => .f n 0 0 []
   | .H n => .h n 0 0 []
+  | .E _ => .e 0 []
+  | .G n => if spec then .gs 0 false ⟨n, 0, 0, []⟩ else .g 0 (newGenerator ⟨n, 0, 0, []⟩)
   | .D n => if spec then .ds 0 false ⟨n, 0, 0, 0⟩ else .d 0 (newGenerator ⟨n, 0, 0, 0⟩)
 
-inductive Op | next (g : Nat) | send (g : Nat) (v : Int) | reenter | close (g : Nat) | throw (g : Nat)
+inductive Op | next (g : Nat) | send (g : Nat) (v : Int) | reenter | close (g : Nat) | throw (g : Nat) (e : Exc)
 
 def Op.tok : Op → String
-  | .next g => s!"n{g}" | .send g v => s!"s{g}:{v}" | .reenter => "r" | .close g => s!"c{g}" | .throw g => s!"t{g}"
+  | .next g => s!"n{g}" | .send g v => s!"s{g}:{v}" | .reenter => "r" | .close g => s!"c{g}" | .throw g e => s!"t{g}:{e.tok}"
 
 def showResp : Resp → String
   | .item v => "y:" ++ showVal v
   | .err (.other e) => "e:" ++ e.py
   | .err e => "s:" ++ (match e.stopValue with | .none => "" | v => showVal v)
 
-/-- model: one `GenObj` per generator, each op is `Generator.Send` -/
+def showClose : Option NextErr → String
+  | none => "c:"
+  | some e => showResp (.err e)
+
+def showAns : GAns → String
+  | .resp r => showResp r
+  | .closed => "c:"
+  | .closeErr e => showResp (.err e)
+
+def Op.gop : Op → Option (Nat × GOp)
+  | .next g => some (g, .send .none)
+  | .send g v => some (g, .send (.int v))
+  | .close g => some (g, .close)
+  | .throw g e => some (g, .throw (.other e))
+  | .reenter => none
+
+/-- the frame after a history under the reference semantics (for the final log) -/
+def specFinal {φ : Type} (run : Entry → φ → RunOut × φ) : List GOp → Bool → Bool → φ → φ
+  | [], _, _, fr => fr
+  | .send a :: h, started, live, fr =>
+    if !live then specFinal run h started live fr
+    else if !started && a != .none then specFinal run h started live fr
+    else
+      let r := run (if started then .send a else .first) fr
+      specFinal run h true (match r.1 with | .yield _ => true | _ => false) r.2
+  | .throw e :: h, started, live, fr =>
+    if !live then specFinal run h started live fr
+    else if !started then specFinal run h true false fr
+    else
+      let r := run (.throw e) fr
+      specFinal run h true (match r.1 with | .yield _ => true | _ => false) r.2
+  | .close :: h, started, live, fr =>
+    if !live then specFinal run h started live fr
+    else if !started then specFinal run h true false fr
+    else
+      let r := run (.throw (.other .genExit)) fr
+      specFinal run h true (match r.1 with | .yield _ => true | _ => false) r.2
+
+/-- model: one `GenObj` per generator, each op is `Generator.Send` / `Throw` / `Close` -/
 def runOpsModel (gens : Array (GenObj TState)) : List Op → List String → List String × Array (GenObj TState)
   | [], acc => (acc, gens)
   | .next g :: r, acc =>
@@ -373,43 +605,36 @@ def runOpsModel (gens : Array (GenObj TState)) : List Op → List String → Lis
   | .send g v :: r, acc =>
     let x := gens[g]!.send runT (.int v)
     runOpsModel (gens.set! g x.2.1) r (acc ++ [showResp x.1])
-  -- py/generator.go Throw/Close: `return nil, NotImplementedError` (known finding C05-K01)
-  | .close _ :: r, acc => runOpsModel gens r (acc ++ ["e:NotImplementedError"])
-  | .throw _ :: r, acc => runOpsModel gens r (acc ++ ["e:NotImplementedError"])
+  | .close g :: r, acc =>
+    let x := gens[g]!.close runT
+    runOpsModel (gens.set! g x.2.1) r (acc ++ [showClose x.1])
+  | .throw g e :: r, acc =>
+    let x := gens[g]!.throw runT (.other e)
+    runOpsModel (gens.set! g x.2.1) r (acc ++ [showResp x.1])
   | .reenter :: r, acc =>
     let h : GenObj TState := newGenerator .r
     let x1 := h.send runT .none
     let x2 := x1.2.1.send runT .none
     runOpsModel gens r (acc ++ [showResp x1.1, showResp x2.1])
 
-/-- spec: per generator the reference semantics over its own sub-history (`specHistory`), reported in op order -/
+/-- spec: per generator the reference semantics over its own sub-history (`specOps`), reported in op order -/
 def runOpsSpec (tm : Array Tmpl) (ops : List Op) : List String × List (List Int) := Id.run do
-  -- replay each generator's sub-history with the reference semantics, then merge in op order
-  let mut perGen : Array (List Resp) := #[]
+  let mut perGen : Array (List GAns) := #[]
   let mut logs : List (List Int) := []
   for gi in [0:tm.size] do
-    let sub : List Val := ops.filterMap (fun o => match o with
-      | .next g => if g == gi then some Val.none else none
-      | .send g v => if g == gi then some (Val.int v) else none
-      | _ => none)
-    perGen := perGen.push (specHistory runT sub false true ((tm[gi]!).init true))
-    -- final frame state: replay to get the log
-    let fin := sub.foldl (fun (st : Bool × Bool × TState) a =>
-      let (started, live, fr) := st
-      if !live then st else if !started && a != .none then st else
-      match runT (if started then some a else none) fr with
-      | (.yield _, fr') => (true, true, fr')
-      | (_, fr') => (true, false, fr')) (false, true, (tm[gi]!).init true)
-    logs := logs ++ [logOf fin.2.2]
+    let sub : List GOp := ops.filterMap (fun o => match o.gop with
+      | some (g, x) => if g == gi then some x else none
+      | none => none)
+    perGen := perGen.push (specOps runT sub false true ((tm[gi]!).init true))
+    logs := logs ++ [logOf (specFinal runT sub false true ((tm[gi]!).init true))]
   let mut idx : Array Nat := Array.replicate tm.size 0
   let mut out : List String := []
   for o in ops do
-    match o with
-    | .next g | .send g _ =>
-      out := out ++ [showResp ((perGen[g]!).getD (idx[g]!) (.err .stopType))]
+    match o.gop with
+    | some (g, _) =>
+      out := out ++ [showAns ((perGen[g]!).getD (idx[g]!) (.resp (.err .stopType)))]
       idx := idx.set! g (idx[g]! + 1)
-    | .reenter => out := out ++ ["e:ValueError", "s:"]
-    | _ => out := out ++ ["?"]      -- close/throw: only in the hand-written C05-K01 cases below
+    | none => out := out ++ ["e:ValueError", "s:"]
   return (out, logs)
 
 def showLogs (logs : List (List Int)) : String :=
@@ -425,16 +650,11 @@ def mkGenCase (tm : List Tmpl) (ops : List Op) : Case :=
     modelV := " ".intercalate mo ++ " |" ++ showLogs mlogs, specV := " ".intercalate so ++ " |" ++ showLogs slogs,
     tags := if ops.length ≥ 2 then ["nt"] else [] }
 
-/-- known finding C05-K01: `generator.close()` / `generator.throw()` are not implemented.  Spec column written
-from Python's definition for the body `A(2)` (no handlers): close() returns None and finishes the generator,
-throw(ValueError) propagates ValueError and finishes it. -/
+/-- the three witnesses of the former known finding C05-K01 (throw/close unimplemented), now ordinary cases -/
 def k01Cases : List Case :=
-  let mk (ops : List Op) (spec : String) : Case :=
-    let c := mkGenCase [.A 2] ops
-    { c with specV := spec, tags := ["nt", "kf=C05-K01"] }
-  [ mk [.next 0, .close 0, .next 0] "y:0 c: s: |L[L[]]",
-    mk [.close 0, .next 0] "c: s: |L[L[]]",
-    mk [.next 0, .throw 0, .next 0] "y:0 e:ValueError s: |L[L[]]" ]
+  [ mkGenCase [.A 2] [.next 0, .close 0, .next 0],
+    mkGenCase [.A 2] [.close 0, .next 0],
+    mkGenCase [.A 2] [.next 0, .throw 0 .value, .next 0] ]
 
 /-- all op sequences of length `n` over the alphabet -/
 def opSeqs (alpha : List Op) : Nat → List (List Op)
@@ -449,14 +669,82 @@ def randOps (r : Rng) (ngen : Nat) (len : Nat) : Rng × List Op := Id.run do
     let (r2, k) := r1.nat 10
     let (r3, v) := r2.nat 6
     r := r3
-    let o : Op := if k < 5 then .next g else if k < 9 then .send g ([5, 7, 8, 3, 6, -4].getD v 1) else .reenter
+    let o : Op := if k < 4 then .next g else if k < 7 then .send g ([5, 7, 8, 3, 6, -4].getD v 1)
+      else if k < 8 then .throw g ([Exc.value, .key, .genExit, .runtime, .type, .lookup].getD v .value) else if k < 9 then .close g else .reenter
     ops := ops ++ [o]
   return (r, ops)
 
 def randTmpl (r : Rng) : Rng × Tmpl :=
-  let (r, k) := r.nat 4
+  let (r, k) := r.nat 5
   let (r, n) := r.nat 4
-  (r, match k with | 0 => .A n | 1 => .F n | 2 => .D n | _ => .H n)
+  (r, match k with | 0 => .A n | 1 => .F n | 2 => .D n | 3 => .G n | _ => .H n)
+
+/-! ### generator bodies: statement language, reference coroutine vs the frame model -/
+
+def showValLog (l : List Val) : String := "L[L[" ++ showVals l ++ "]]"
+
+/-- ops on the single generator of a body case -/
+def bodyOpTok : GOp → String
+  | .send .none => "n0"
+  | .send (.int v) => s!"s0:{v}"
+  | .send _ => "n0"
+  | .throw (.other e) => s!"t0:{e.tok}"
+  | .throw _ => "t0:value"
+  | .close => "c0"
+
+/-- spec: Python's generator methods (`specOps`) over the coroutine the body denotes (`coRun`) -/
+def bodySpec (b : S) (ops : List GOp) : String :=
+  let ans := specOps coRun ops false true (coInit b)
+  let fin := specFinal coRun ops false true (coInit b)
+  " ".intercalate (ans.map showAns) ++ " |" ++ showValLog fin.log
+
+def mkBodyCase (model : S → List GOp → String) (b : S) (ops : List GOp) : Case :=
+  let src := (b.source.replace " " "\\s")
+  let opsTok := if ops.isEmpty then "-" else ",".intercalate (ops.map bodyOpTok)
+  { input := s!"body body:{src} {opsTok}", modelV := model b ops, specV := bodySpec b ops,
+    tags := if ops.length ≥ 2 then ["nt"] else [] }
+
+def bodyAtoms : List S := [.log 1, .yld 2, .brk, .cont, .ret 5, .raise .key, .raise .value]
+
+/-- all bodies of nesting depth ≤ 1 over the atoms -/
+def bodiesDepth1 : List S :=
+  bodyAtoms ++ bodyAtoms.flatMap (fun a => bodyAtoms.map (fun b => S.seq a b)) ++ bodyAtoms.map (fun a => S.loop 2 a)
+    ++ bodyAtoms.flatMap (fun a => bodyAtoms.map (fun b => S.tryFin a b))
+    ++ bodyAtoms.flatMap (fun a => bodyAtoms.map (fun b => S.tryExc a .value b))
+
+/-- the regression family: break / continue / return / raise / fall-through crossing a `finally` that yields
+(the defect fixed by 53a0a1f: `try: return 1 finally: yield 2`), with and without an enclosing loop, nested, under a handler,
+and the handlers that see a thrown exception -/
+def bodyFamily : List S :=
+  let xs : List S := [.log 3, .brk, .cont, .ret 5, .raise .key, .yld 4]
+  let xs' : List S := [.log 3, .ret 5, .raise .key, .yld 4, .raise .value]
+  xs.map (fun x => S.seq (.loop 2 (.tryFin (.seq (.log 1) x) (.yld 2))) (.yld 9))
+  ++ xs'.map (fun x => S.seq (.tryFin x (.yld 2)) (.yld 9))
+  ++ xs'.map (fun x => S.tryFin (.tryFin x (.yld 2)) (.yld 3))
+  ++ xs.map (fun x => S.loop 2 (.tryFin (.tryFin (.seq (.log 1) x) (.yld 2)) (.log 7)))
+  ++ xs.map (fun x => S.seq (.tryExc (.loop 2 (.tryFin x (.yld 2))) .key (.yld 8)) (.log 6))
+  ++ xs'.flatMap (fun x => [S.brk, .cont, .log 3].map (fun y => S.tryFin x (.loop 2 (.seq (.yld 2) y))))
+  ++ xs'.map (fun x => S.tryFin x (.seq (.yld 2) (.ret 7)))
+  ++ [ .tryExc (.yld 1) .value (.yld 2), .tryExc (.yld 1) .genExit (.yld 2), .tryExc (.yld 1) .genExit (.ret 3),
+       .tryExc (.yld 1) .genExit (.raise .key), .tryFin (.yld 1) (.ret 3), .loop 3 (.tryFin (.yld 1) .brk),
+       .loop 2 (.tryExc (.yld 1) .value .cont), .loop 2 (.tryExc (.yld 1) .lookup (.yld 3)),
+       .tryExc (.tryFin (.yld 1) (.log 9)) .value (.yld 2), .tryFin (.tryExc (.yld 1) .key (.log 8)) (.yld 2),
+       .seq (.loop 2 (.seq (.yld 1) (.yld 2))) (.ret 4), .loop 2 (.loop 2 (.tryFin (.yld 1) (.log 9))),
+       .tryExc (.seq (.yld 1) (.raise .index)) .lookup (.seq (.yld 2) (.raise .value)) ]
+
+/-- model of a body case: the body compiled to bytecode (`compileBody`) and run on the transliteration of `vm.RunFrame`
+(`frameRun`: value stack, block stack, locals; per-call Vm fields re-created at every entry) through `Generator.Send/Throw/Close` -/
+def bodyModel (b : S) (ops : List GOp) : String :=
+  let run := frameRun (compileBody b) 100000
+  let ans := modelOps run ops (newGenerator frameInit)
+  let fin := modelOpsFinal run ops (newGenerator frameInit)
+  " ".intercalate (ans.map showAns) ++ " |" ++ showValLog fin.frame.log
+
+def gopSeqs (alpha : List GOp) : Nat → List (List GOp)
+  | 0 => [[]]
+  | n + 1 => alpha.flatMap (fun o => (gopSeqs alpha n).map (fun r => o :: r))
+
+def gopSeqsUpTo (alpha : List GOp) (n : Nat) : List (List GOp) := (List.range (n + 1)).flatMap (gopSeqs alpha)
 
 /-! ### main -/
 
@@ -514,11 +802,38 @@ def genMain (tier : String) (seed : Nat) : IO Unit := do
   -- (4) generator histories: all interleavings of bounded length over 3 live generators
   let alpha : List Op := [.next 0, .next 1, .next 2, .send 0 5, .send 1 7, .send 2 3, .send 1 8, .send 0 0, .send 2 6]
   let sets : List (List Tmpl) := [[.A 2, .F 2, .D 2], [.H 2, .F 1, .A 0], [.D 1, .H 1, .F 3]]
+  let setsTC : List (List Tmpl) := sets ++ [[.G 2, .G 1, .G 0]]
   let histLen := if thorough then 5 else 4
   for tm in sets do
     for n in [0:histLen + 1] do
       for ops in opSeqs alpha n do
         IO.println (mkGenCase tm ops).line
+  -- throw / close interleaved with next / send over the same generator sets
+  let alphaTC : List Op := [.next 0, .next 1, .next 2, .send 1 7, .send 0 8, .throw 0 .value, .throw 1 .value, .throw 2 .key, .close 0, .close 1, .close 2]
+  for tm in setsTC do
+    for n in [1:(if thorough then 5 else 4)] do
+      for ops in opSeqs alphaTC n do
+        IO.println (mkGenCase tm ops).line
+  -- generator bodies (statement language): the family around `finally: yield` and every body of depth ≤ 1
+  let alphaB : List GOp := [.send .none, .send (.int 5), .throw (.other .value), .close]
+  let alphaB2 : List GOp := alphaB ++ [.throw (.other .key), .throw (.other .genExit)]
+  for b in bodyFamily do
+    if b.valid false false then
+      for ops in gopSeqsUpTo (if thorough then alphaB2 else alphaB) 4 do
+        IO.println (mkBodyCase bodyModel b ops).line
+  for b in bodiesDepth1 do
+    if b.valid false false then
+      for ops in gopSeqsUpTo alphaB (if thorough then 4 else 3) do
+        IO.println (mkBodyCase bodyModel b ops).line
+  if thorough then
+    for t in bodiesDepth1 do
+      for b in [S.seq (.loop 2 t) (.yld 9), .tryFin t (.yld 3), .loop 2 (.tryFin t (.yld 3)), .tryExc t .key (.yld 3)] do
+        if b.valid false false then
+          for ops in gopSeqsUpTo alphaB 3 do
+            IO.println (mkBodyCase bodyModel b ops).line
+  -- the exception being handled survives a suspension inside the handler (bare `raise` after the yield)
+  for ops in (List.range 4).flatMap (opSeqs [.next 0, .send 0 5, .throw 0 .value, .close 0, .next 1]) do
+    IO.println (mkGenCase [.E 0, .E 0] ops).line
   IO.println (mkGenCase [.A 1] [.reenter, .next 0, .reenter, .next 0, .next 0]).line
   for c in k01Cases do IO.println c.line
   let ngen := if thorough then 30000 else 3000
